@@ -546,6 +546,14 @@ def validate_gate_parameters(compiled, device=None):
         bb_device._target["name"] = device.target  # pylint: disable=protected-access
 
     if not isinstance(compiled, bb.BlackbirdProgram):
+        for cmd in compiled.circuit:
+            if getattr(cmd.op, "dagger", False):
+                # the Blackbird program that is matched against the layout cannot express .H
+                raise CircuitError(
+                    "Program cannot be matched with the device layout: the operation {} is "
+                    "daggered.".format(cmd.op)
+                )
+
         lossless_compiled = compiled._linked_copy()  # pylint: disable=protected-access
         lossless_compiled.circuit = remove_loss(compiled.circuit)
         compiled = sfio.to_blackbird(lossless_compiled)
